@@ -1,11 +1,32 @@
 use super::SMap;
-use crate::lterm::LTerm;
+use crate::compound::CompoundObject;
+use crate::lterm::{LTerm, LTermInner};
 use crate::relation::diseq::DisequalityConstraint;
 use crate::state::constraint::Constraint;
 use crate::engine::Engine;
 use crate::state::User;
 use std::collections::HashSet;
 use std::rc::Rc;
+
+/// True if every variable of `t` is associated with a reified (any-) variable in `r`.
+fn only_reified_vars<U, E>(r: &SMap<U, E>, t: &LTerm<U, E>) -> bool
+where
+    U: User,
+    E: Engine<U>,
+{
+    fn object_ok<U: User, E: Engine<U>>(r: &SMap<U, E>, object: &dyn CompoundObject<U, E>) -> bool {
+        object.children().all(|child| match child.as_term() {
+            Some(term) => only_reified_vars(r, term),
+            None => object_ok(r, child),
+        })
+    }
+    match t.as_ref() {
+        LTermInner::Var(_, _) => r.is_anyvar(t),
+        LTermInner::Cons(head, tail) => only_reified_vars(r, head) && only_reified_vars(r, tail),
+        LTermInner::Compound(object) => object_ok(r, object.as_ref()),
+        _ => true,
+    }
+}
 
 #[derive(Derivative)]
 #[derivative(Debug(bound="U: User"), Clone(bound="U: User"))]
@@ -33,10 +54,13 @@ where
         let mut purified_cstore = ConstraintStore::new();
         for constraint in self.0.into_iter() {
             if let Some(tree_constraint) = constraint.downcast_ref::<DisequalityConstraint<U, E>>() {
+                // A disequality that mentions a variable which is not part of the reified
+                // result can always be satisfied by choosing that variable, so it says
+                // nothing about the result and is dropped.
                 if tree_constraint
                     .smap_ref()
                     .iter()
-                    .any(|(u, _)| r.is_anyvar(u))
+                    .all(|(u, v)| only_reified_vars(r, u) && only_reified_vars(r, v))
                 {
                     purified_cstore.insert(constraint);
                 }
